@@ -27,6 +27,7 @@ type Gen struct {
 	Cover map[string]int
 	// CtlFrom is the index of the first block of the emergency-controls phase (0 = none).
 	CtlFrom int
+	nLists  int
 }
 
 func NewGen(seed int64) *Gen {
@@ -107,6 +108,9 @@ func (g *Gen) closeBlock() {
 	for _, r := range g.Res[g.cur] {
 		if r.Tag == "liquidity.cancelall.multi" && r.OK {
 			g.Cover["cancelAllMultiPair"]++
+		}
+		if strings.HasSuffix(r.Tag, ".list") && r.OK {
+			g.Cover["acceptedListMessages"]++
 		}
 		if strings.HasPrefix(r.Tag, "faulty.") && !r.OK {
 			g.Cover["multiFaultRejections"]++
